@@ -209,7 +209,7 @@ def diagnose(r):
                 if r.get("sym") == 1 and r.get("u1000") == 0 and r["fact"] != "FACTORED":
                     chk("diagonal pivots (perm_r = perm_c)", r.get("prpc") == 1)
                 if r["nrhs"] > 0 and 0 <= r["cond"] < 100000000:
-                    chk("backward error of X (original system)", 0 <= r["omega"] <= 20000)
+                    chk("backward error of X (original system)", r["omega"] >= 0 and (r.get("refok") != 1 or r["omega"] <= 20000) and 0 <= r.get("omegan", 0) <= 1000000)
                     chk("berr truthful", r["berrdev"] <= 20000); chk("ferr dominates", r["ferrok"] <= 1000)
                     chk("rcond sandwich", r["rclo"] <= 1100 and r["rchi"] <= 1100); chk("pivot growth", r["rpgdev"] <= 1000)
             else:
